@@ -241,17 +241,27 @@ def do_call(an, st, bi, t):
     if an.mag_calls is not None and an.mag_calls(path, t):
         src = True
     elif an.mag_prop is not None and an.mag_prop.search(path):
+        flags = []
         for o in t["args"]:
+            tn = False
             if "copy" in o or "move" in o:
                 ov, _ = an.eval_op_raw(st, o)
                 if an.mag_tainted(st, ov):
-                    src = True
-                    break
-                pj = o.get("copy") or o.get("move")
-                cn = an.canon(st, pj)
-                if cn is not None and an.term_tainted(st, ("v", cn[0], cn[1])):
-                    src = True
-                    break
+                    tn = True
+                else:
+                    pj = o.get("copy") or o.get("move")
+                    cn = an.canon(st, pj)
+                    if cn is not None and an.term_tainted(st, ("v", cn[0], cn[1])):
+                        tn = True
+            flags.append(tn)
+        last = path.rsplit("::", 1)[-1]
+        if last == "min" and len(flags) == 2:
+            # min(x, B) <= B: the magnitude is that of an operand which does not come from the input
+            src = all(flags)
+        elif last == "clamp" and len(flags) == 3:
+            src = flags[1] or flags[2]
+        else:
+            src = any(flags)
     outs = _do_call(an, st, bi, t)
     if src:
         for _, s2 in outs:
